@@ -48,7 +48,17 @@ type FuncContract struct {
 	Ghostdef  []*Clause   // ensures clauses that are definitions of ghost state
 	Ghostset  []*GhostSet // ghost assignments performed when the function returns
 	NoWrite   []*Clause   // nowrite[C07] loc: the location is never written, not even temporarily
+	HeapFun   bool        // the result is a function of the arguments and the heap: call("f", args) names it
+	AtCalls   []*AtCall   // atcall <callee> assert[label] <expr>: checked at every call of <callee> in the body
 	Opts      map[string]string
+}
+
+// AtCall: an assertion attached to the call sites of a callee inside the function under contract.
+// The expression is evaluated in the state before the call; the callee's parameter names denote
+// the actual arguments.
+type AtCall struct {
+	Callee string
+	Clause *Clause
 }
 
 type GhostSet struct {
@@ -322,6 +332,26 @@ func (sp *Specs) LoadSpecFile(path, pkgPath string) error {
 			cur.Opts["trusted"] = rest
 		case "nobody":
 			cur.NoBody = true
+		case "heapfun":
+			cur.HeapFun = true
+		case "atcall":
+			// atcall <callee> assert[label] <expr>
+			if cur == nil {
+				return fail("atcall outside func")
+			}
+			parts := strings.SplitN(rest, " ", 3)
+			if len(parts) < 3 || !strings.HasPrefix(parts[1], "assert") {
+				return fail("atcall <callee> assert[label] <expr>")
+			}
+			lbl := ""
+			if i := strings.Index(parts[1], "["); i >= 0 && strings.HasSuffix(parts[1], "]") {
+				lbl = parts[1][i+1 : len(parts[1])-1]
+			}
+			e, err := ParseExpr(parts[2])
+			if err != nil {
+				return fail("%v", err)
+			}
+			cur.AtCalls = append(cur.AtCalls, &AtCall{Callee: parts[0], Clause: &Clause{Kind: "atcall", Name: lbl, Expr: e, Src: parts[2], File: path, Line: ln}})
 		case "pure":
 			cur.Pure = true
 		case "overflow":
